@@ -40,6 +40,7 @@ func main() {
 	}
 	replace := map[string]string{}
 	replace[filepath.Join(repo, "pkg/zzverif/vsync/vsync.go")] = shim
+	replace[filepath.Join(repo, "pkg/zzverif/zzx/zzx.go")] = filepath.Join(filepath.Dir(filepath.Dir(shim)), "zzx", "zzx.go")
 
 	instrumented := []string{}
 	err := filepath.Walk(filepath.Join(repo, "pkg"), func(p string, info os.FileInfo, err error) error {
